@@ -86,7 +86,7 @@ CHECKS = {
         "title": "a concurrent insert is seen by the scan or invalidates its version set",
         "quick": [run("conc_phantom_scan", "conc-plain", mode="phantom", cursor=0, prop="C06", rounds=4000, repeat=2),
                   run("conc_phantom_scan_asan", "conc-asan", mode="phantom", cursor=0, prop="C06", rounds=600),
-                  run("conc_phantom_micro_scan", "conc-plain", mode="phantom_micro", cursor=0, prop="C06", races=600000, repeat=2)],
+                  run("conc_phantom_micro_scan", "conc-plain", mode="phantom_micro", cursor=0, prop="C06", races=300000, repeat=2)],
         "thorough": [run("conc_phantom_scan", "conc-plain", mode="phantom", cursor=0, prop="C06", rounds=300000, repeat=6, timeout=3400),
                      run("conc_phantom_scan_asan", "conc-asan", mode="phantom", cursor=0, prop="C06", rounds=30000, repeat=2, timeout=3400),
                      run("conc_phantom_micro_scan", "conc-plain", mode="phantom_micro", cursor=0, prop="C06", races=40000000, repeat=6, timeout=3400),
